@@ -42,4 +42,11 @@ Promises ==
   \* an exact quotient multiplied back gives the dividend
   /\ (DQuo(x, y).ok /\ ~DQuo(x, y).rounded) => DCmp(DMulExactValue(DQuo(x, y).d, y), x) = 0
   /\ DQuo(x, y).ok = (y.c # <<>>)
+  \* integer quotient and remainder: x = q*y + r, |r| < |y|, r has the sign of x (or is zero), q is an integer
+  /\ DQuoInteger(x, y).ok = (y.c # <<>>) /\ DRem(x, y).ok = (y.c # <<>>)
+  /\ y.c # <<>> => LET q == DQuoInteger(x, y).d  r == DRem(x, y).d IN
+                   /\ q.e = 0
+                   /\ DCmp(DAdd(DMulExactValue(q, y), r), x) = 0
+                   /\ DCmp(Mk(FALSE, r.c, r.e), Mk(FALSE, y.c, y.e)) < 0
+                   /\ (IsZeroD(r) \/ r.neg = x.neg)
 =============================================================================
